@@ -18,11 +18,20 @@ def make(kind, W, H, D):
     from ECAgent.Core import Model
     import ECAgent.Environments as E
     m = Model(seed=3)
+    base = E.LineWorld if kind == 'line' else (E.GridWorld if kind == 'grid' else E.DiscreteWorld)
+
+    class UserWorld(base):
+        # a user world that reports its size in its own units: the public accessor is the user's to override, the
+        # cell table is built from the constructor's extents
+        _verif_user = True
+
+        def get_dimensions(self):
+            return (7, 7, 7, 7)
     if kind == 'line':
-        return E.LineWorld(m, W)
+        return UserWorld(m, W)
     if kind == 'grid':
-        return E.GridWorld(m, W, H)
-    return E.DiscreteWorld(m, W, H, D)
+        return UserWorld(m, W, H)
+    return UserWorld(m, W, H, D)
 
 
 def dims(W, H, D):
@@ -81,6 +90,12 @@ def run_history(case, props=None):
                 return out
         outside = [(x, y, z) for x in range(-1, w + 1) for y in range(-1, h + 1) for z in range(-1, d + 1)
                    if not (0 <= x < w and 0 <= y < h and 0 <= z < d)]
+        # just outside by less than a cell, and infinitely far: numbers of any kind are compared, never truncated first
+        import math
+        from fractions import Fraction
+        for ax in range(3):
+            for v in (-0.5, -1e-9, Fraction(-1, 3), math.inf, -math.inf):
+                outside.append(tuple(v if j == ax else 0 for j in range(3)))
         for (x, y, z) in outside:
             try:
                 env.get_cell(x, y, z)
@@ -162,6 +177,10 @@ def run_history(case, props=None):
             out.append(('C09', f'two worlds of shape {wk} {W, H, D}: {type(ex).__name__}: {ex}'))
     elif kind == 'nbr':
         mode, cx, cy, cz, radius, incl, rep = case[5:12]
+        incl_arg = incl
+        if len(case) > 12 and case[12] == 'npflag':
+            import numpy as np
+            incl_arg = (np.True_ if incl else np.False_) if (cx + cy + cz + radius) % 2 == 0 else (1 if incl else 0)
         centre_t = (cx, cy, cz)
         cid = oracle_id(cx, cy, cz, W, H, D)
         if rep == 'id':
@@ -182,9 +201,9 @@ def run_history(case, props=None):
                 try:
                     if entry == 'specific':
                         f = env.get_moore_neighbours if mode == 'moore' else env.get_neumann_neighbours
-                        got = f(centre, radius, incl, ret)
+                        got = f(centre, radius, incl_arg, ret)
                     else:
-                        got = env.get_neighbours(centre, radius, incl, ret, mode)
+                        got = env.get_neighbours(centre, radius, incl_arg, ret, mode)
                 except Exception as ex:
                     out.append(('C10', f'{entry} {mode} query raised {type(ex).__name__}: {ex}'))
                     continue
@@ -207,7 +226,16 @@ def run_history(case, props=None):
         for op in ops:
             if op[0] == 'add':
                 _, name, src = op
-                if src == 'callable':
+                if src == 'reentrant':
+                    # a generator that lazily creates the layer it derives from, through the same public call
+                    def gen(p, cells, _env=env, _n=name):
+                        if _n + '_base' not in _env.cells:
+                            _env.add_cell_component(_n + '_base', [5] * ncells)
+                        return 1 + len(p)
+                    vals = [4] * ncells
+                    arg = gen
+                    expect[name + '_base'] = [5] * ncells
+                elif src == 'callable':
                     def gen(p, cells):
                         return ('v', name) + tuple(p)
                     vals = [('v', name) + p for p in pos]
@@ -328,6 +356,8 @@ def histories(seed, budget, prop='C09'):
                                 pass
                             n += 1
                             yield ('nbr',) + s + (mode, cx, cy, cz, radius, incl, rep)
+                            if n % 3 == 0:
+                                yield ('nbr',) + s + (mode, cx, cy, cz, radius, incl, rep, 'npflag')
         for _ in range(budget):
             W, H, D = rng.randint(0, 5), rng.randint(0, 5), rng.randint(0, 4)
             w, h, d = dims(W, H, D)
@@ -335,6 +365,8 @@ def histories(seed, budget, prop='C09'):
                    rng.randrange(d), rng.randint(0, 6), rng.random() < 0.5, rng.choice(['id', 'tuple', 'comp', 'compfrac', 'compnear']))
     else:
         srcs = ['callable', 'list', 'array', 'const', 'lookup']
+        for s in [x for x in SHAPES if x[1] <= 3 and x[2] <= 3 and x[3] <= 2][::4]:
+            yield ('cells',) + s + ([('add', 'r', 'reentrant'), ('add', 'q', 'list'), ('remove', 'r_base'), ('remove', 'r')],)
         for s in [x for x in SHAPES if x[1] <= 3 and x[2] <= 3 and x[3] <= 2][::3]:
             yield ('cells',) + s + ([('add', 'k', 'consttuple'), ('add', 'f', 'constfit'), ('remove', 'k')],)
             yield ('cells',) + s + ([('add', 'm', 'mixedlist'), ('remove', 'mask'), ('add', 'mask', 'const'), ('remove', 'mask'),
